@@ -20,6 +20,14 @@ CLAIMS = {
             'one; the two extra measure-zero sets are covered by the finite-difference oracle only -- stated in the evidence).',
             AX + TR + 'tools/tr_edges.py likewise validated by the PrimFloat correspondence of the edge programs. np.dot = textbook matrix product. Theorem over exact reals.',
             'Coq proof (chain rule over regenerated staged programs, dual numbers + ring) + PrimFloat correspondence'),
+    'C02': ('proof',
+            'Theorem C02 (coq/props/C02.v): the error programs regenerated from calc_error satisfy the measurement model stated with the '
+            'independent specification lib/Spec.v -- odometry: err = compact(E) with M(p1) M(D) = M(p2), M(D) M(E) = M(z) (so E = (p1^-1 p2)^-1 z); '
+            'landmark: (p (+) offset) applied to (err + z) is the landmark; R^n closed forms; the regenerated np.dot form of calc_chi2 is the '
+            'quadratic form e^T Omega e; graph chi2 = sum over the edge list, non-negative for PSD information, linear in Omega, zero iff every '
+            'error vanishes (PD), invariant under permuting edges; a vanishing error means the measurement equals the relative pose / maps onto the landmark.',
+            AX + TR + 'Unit-quaternion hypotheses on SE(3) operands exactly where the code unit-norm rotation form is compared with the homogeneous form. Over exact reals.',
+            'Coq proof over regenerated model (ring identities vs independent spec, induction over edge list) + PrimFloat correspondence'),
     'C09': ('proof',
             'Theorem C09 (coq/props/C09.v): for the pose model regenerated from pose/*.py on every run, (+) is the product of homogeneous '
             'matrices / Hamilton product of an independently written specification (lib/Spec.v), a (-) b = b^-1 (+) a, inverse and identity are '
